@@ -688,7 +688,7 @@ func init() {
 					kindOK := false
 					if loop != nil {
 						for _, g := range fi.GuardsWithin(cl, loop) {
-							if be, ok := ast.Unparen(g.Expr).(*ast.BinaryExpr); ok && !g.Neg && be.Op == token.EQL {
+							if be, ok := ast.Unparen(g.Expr).(*ast.BinaryExpr); ok && ((!g.Neg && be.Op == token.EQL) || (g.Neg && be.Op == token.NEQ)) {
 								if f := fi.selField(be.X); f != nil && f.Name() == "kind" && types.ExprString(be.Y) == "valueExpr" {
 									kindOK = true
 									continue
